@@ -145,6 +145,7 @@ class Endpoint:
         sim = self.sim
         for o in sim.oracles:
             o.on_api_call(self, name, args)
+        bootstrap.WALL.offset = sim.wall_base + self.k.now  # tls.utcnow() follows virtual time
         try:
             return getattr(self.conn, name)(*args)
         except Exception as exc:  # noqa
@@ -475,6 +476,10 @@ class TransportSim:
         self.ops_skipped = 0
         self.goal_at = None
         self.end_reason = None
+        # the code under test draws "random" bytes already while connections are constructed
+        bootstrap.DET.reseed(chooser.seed)
+        self.wall_base = float((profile or {}).get("wall_base", 0.0))
+        bootstrap.WALL.offset = self.wall_base
         self.cfg = self._draw_config()
         self.net = SimNetwork(self)
         self._build_endpoints()
@@ -996,8 +1001,6 @@ class TransportSim:
         self.k.after(0.25, self._watchdog, tag="watchdog")
 
     def run(self):
-        bootstrap.DET.reseed(self.ch.seed)
-        bootstrap.WALL.offset = 0.0
         cfg = self.cfg
         for o in self.oracles:
             o.on_start(self)
